@@ -33,6 +33,9 @@ STRUCT_FAULTS = [
     ("expression-in-plain-attribute", "<%namespace name=\"${x}\" file=\"y\"/>", 0, "linecol"),
     ("unknown-tag-multiline", "<%nosuchtag\n  a=\"1\"/>", 0, "linecol"),
     ("tag-name-with-two-colons", "<%a:b:c/>", 0, "linecol"),
+    ("else-without-open-block", "\n% else:\nx\n", 1, "line"),
+    ("except-without-open-block", "\n% except KeyError:\nx\n", 1, "line"),
+    ("elif-after-endif", "\n% if x:\n% endif\n% elif y:\n", 18, "line"),
     ("closing-tag-for-namespace-call-mismatch", "<%a:b>x</%a:c>", 7, "linecol"),
 ]
 
